@@ -236,6 +236,57 @@ func c11Run(c *verifeng.Chooser, depth, nclients int, bursts bool) {
 				menu = append(menu, ev{"emit (while a backlog is being read)", func() bool { return emit(1) }})
 			}
 			menu = append(menu, ev{"the backlog read returns", release})
+			if !stopped {
+				// Stop while a registration is in flight: the caller is
+				// released by the shutdown, the handler finishes the
+				// registration it is in the middle of afterwards
+				menu = append(menu, ev{"stop (while a backlog is being read), then the backlog read returns", func() bool {
+					tk := verifbubble.Go("Stop", func() (any, error) { m.Stop(); return nil, nil })
+					verifbubble.Wait()
+					stopped = true
+					for _, cl := range clients {
+						cl.frozen = true
+					}
+					close(src.parked)
+					src.parked = nil
+					verifbubble.Wait()
+					if !tk.Done() {
+						c.Fail("blocked", "Stop-blocks", "Stop was called while a subscription's backlog was being read; the read has returned and every goroutine is idle, but Stop has not returned")
+						return false
+					}
+					for i, cl := range clients {
+						if cl.pending == nil {
+							continue
+						}
+						tk := cl.pending
+						cl.pending = nil
+						if !tk.Done() {
+							c.Fail("blocked", "NewSubscription-blocks", "NewSubscription(c%d) has not returned after Stop", i)
+							return false
+						}
+						if tk.Err == nil {
+							// the registration made it: an ordinary subscriber of a stopped manager
+							cl.sub = tk.Val.(*blockntfns.Subscription)
+							cl.state = "sub"
+						}
+						cl.expecting = false
+					}
+					// events sent meanwhile may or may not have been taken
+					// by the manager before it stopped: the source takes
+					// back what is still on its way
+					for _, tk := range pendingEmits {
+						if !tk.Done() {
+							select {
+							case <-src.ch:
+							default:
+							}
+							verifbubble.Wait()
+						}
+					}
+					pendingEmits = nil
+					return true
+				}})
+			}
 			e := menu[c.ChooseFree(len(menu), "event")]
 			c.Step("%s%s", e.name, burst.Begin())
 			if !e.run() {
